@@ -35,7 +35,12 @@ Print Assumptions C15_incoming_bound.
     when an accepted stream is removed, with a strictly larger count <= 2^60; the limit never
     decreases; an opened, not yet accepted stream (also one already completed) is returned by Accept. *)
 Theorem C15_incoming_limit_and_credit : forall uni client N m, 0 <= N -> ireach uni client N m ->
-  let f := first_incoming uni client in
+  in_facts (first_incoming uni client) m /\ i_uni m = uni.
+Proof. exact in_reach_facts. Qed.
+Print Assumptions C15_incoming_limit_and_credit.
+
+(** [in_facts] spelled out (so that the statement above can be read here). *)
+Theorem C15_in_facts_meaning : forall f m, in_facts f m <->
   (forall id, on_lattice f id ->
      (snd (in_get_or_open m id) = RErr ErrLimit <-> in_adv m < id_stream_num id)) /\
   (forall id m' r, on_lattice f id -> in_get_or_open m id = (m', r) -> r <> RErr ErrLimit ->
@@ -44,11 +49,11 @@ Theorem C15_incoming_limit_and_credit : forall uni client N m, 0 <= N -> ireach 
      zlen (i_streams m') = zlen (i_streams m) - 1 /\
      (exists id, (op = IDelete id \/ op = IAccept /\ r = RId id) /\ id < i_nextAccept m' /\
                  lookup id (i_streams m) <> None /\ lookup id (i_streams m') = None) /\
-     exists n, fr = [FMax uni n] /\ in_adv m < n /\ n = in_adv m' /\ n <= SM_MaxStreamCount) /\
+     exists n, fr = [FMax (i_uni m) n] /\ in_adv m < n /\ n = in_adv m' /\ n <= SM_MaxStreamCount) /\
   (forall op m' r fr, iop_ok f op -> istep m op = (m', r, fr) -> in_adv m <= in_adv m') /\
   (i_closed m = None -> i_nextAccept m < i_nextOpen m -> snd (fst (in_accept m)) = RId (i_nextAccept m)).
-Proof. exact in_reach_facts. Qed.
-Print Assumptions C15_incoming_limit_and_credit.
+Proof. exact (fun f m => iff_refl _). Qed.
+Print Assumptions C15_in_facts_meaning.
 
 (** (a) The bound for the four-map streamsMap: every history of the API of streams_map.go
     (frames with IDs >= 0, Open/OpenSync/Accept with wake-ups and cancellations, completions,
@@ -100,15 +105,30 @@ Print Assumptions C15_fifo.
     can be served and gets the next ID; if a stream can be opened while somebody waits, the head's
     wake-up is pending and yields that stream (no credit is lost, e.g. when a woken waiter
     cancels); a woken waiter never has to wait again; nobody but the head holds a wake-up. *)
-Theorem C15_fifo_no_lost_credit : forall uni client m, oreach uni client m ->
+Theorem C15_fifo_no_lost_credit : forall uni client m, oreach uni client m -> out_facts m.
+Proof. exact out_fifo_state. Qed.
+Print Assumptions C15_fifo_no_lost_credit.
+
+Theorem C15_out_facts_meaning : forall m, out_facts m <->
   (forall w m' id fr, o_sync_wake m w = (m', RId id, fr) ->
      exists q, o_queue m = (w, true) :: q /\ queue_ids m' = map fst q /\ id = o_next m /\ fr = []) /\
   (forall w t q, o_closed m = None -> o_queue m = (w, t) :: q -> o_next m <= o_max m ->
      t = true /\ exists m', o_sync_wake m w = (m', RId (o_next m), [])) /\
   (forall w, snd (fst (o_sync_wake m w)) <> RParked) /\
-  head_tok m.
-Proof. exact out_fifo_state. Qed.
-Print Assumptions C15_fifo_no_lost_credit.
+  head_tok m /\
+  o_next m <= o_max m + 4.
+Proof. exact (fun m => iff_refl _). Qed.
+Print Assumptions C15_out_facts_meaning.
+
+(** (a)-(c) in every reachable state of the four-map streamsMap (any history of its API incl.
+    ResetFor0RTT), both perspectives, both stream types: all per-map facts above. *)
+Theorem C15_streams_map_reachable : forall client mb mu ops s outs uni,
+  0 <= mb -> 0 <= mu -> Forall top_ok ops ->
+  trun (init_sm client mb mu) ops = (s, outs) ->
+  in_facts (first_incoming uni client) (s_in s uni) /\ i_uni (s_in s uni) = uni /\
+  out_facts (s_out s uni) /\ o_uni (s_out s uni) = uni.
+Proof. exact sm_reachable_facts. Qed.
+Print Assumptions C15_streams_map_reachable.
 
 (** (b) for the four-map streamsMap, every reachable state, both types. *)
 Theorem C15_outgoing_streams_map : forall client mb mu ops s outs uni,
